@@ -88,7 +88,17 @@ def gen_case(rng, malformed=None):
                           form="two" if (len(amap) == 1 and rng.random() < 0.3) else "one",
                           container=rng.choice(["set", "set", "frozenset", "tuple", "list", "range"] +
                                                (["generator", "iter", "map", "filter"] * 2 if fn == "fill" else [])),
-                          via=rng.choice([None, None, None, "ctx", "ctx", "ctx_update"])))
+                          via=rng.choice([None, None, None, "ctx", "ctx", "ctx_update"]),
+                          wait_as=rng.choice(["bool", "bool", "int", "numpy", "none"])))
+        if rng.random() < 0.2:                    # a chip listed with no core / a binary listed with no chip
+            entry = rng.choice(amap)
+            spare = [c for c in chips if not any(t[:2] == [c[0], c[1]] for t in entry[1])]
+            if spare and rng.random() < 0.7:
+                entry[1].insert(rng.randint(0, len(entry[1])), [spare[0][0], spare[0][1], []])
+            else:
+                unused = [b for b in range(nbin) if not any(e[0] == b for e in amap)]
+                if unused:
+                    amap.insert(rng.randint(0, len(amap)), [unused[0], []])
     if nbin > 1 and rng.random() < 0.15:          # two paths with equal content
         binaries[1] = list(binaries[0])
     for ci in range(1, len(calls)):               # a file rebuilt between two calls on the same controller
@@ -285,8 +295,8 @@ def controller_state_history():
                 calls=[dict(fn="load", map=[[0, [[0, 0, [1, 2]], [1, 0, [4]]]], [1, [[0, 0, [7]], [2, 3, [9]]]]], app_id=30,
                             wait=True, n_tries=1, use_count=False, form="one", container="set", via="ctx",
                             seq_advance=65536 - 9),
-                       dict(fn="load", map=[[0, [[0, 0, [1, 2]], [1, 0, [4]]]]], app_id=31, wait=None, n_tries=None,
-                            use_count=None, form="one", container="set", via="ctx_update"),
+                       dict(fn="load", map=[[0, [[0, 0, [1, 2]], [2, 3, []], [1, 0, [4]]]], [1, []]], app_id=31, wait=False,
+                            n_tries=None, use_count=False, form="one", container="set", via="ctx_update", wait_as="int"),
                        dict(fn="fill", map=[[1, [[0, 0, [3, 5]], [2, 3, [6]]]]], app_id=32, wait=True, n_tries=None,
                             use_count=None, form="one", container="set", via=None),
                        dict(fn="fill", map=[[1, [[0, 0, [5, 8]], [2, 3, [6, 10]]]]], app_id=32, wait=True, n_tries=None,
@@ -697,6 +707,9 @@ def oracle(c, ci, k, pre, o):
                 keys.add("error-names-wrong-cores")
             for key in sorted(keys):
                 found.append((key, "SpiNNakerLoadingError names %r, not loaded are %r" % (sorted(told), sorted(missing))))
+        if not missing:
+            found.append(("error-although-everything-loaded",
+                          "SpiNNakerLoadingError (naming %r) although every requested core holds its binary" % sorted(told)[:6]))
         # the error "names exactly the cores": its message lists the very cores of its map
         import re as _re
         said = sorted(tuple(int(v) for v in mt) for mt in _re.findall(r"\((\d+), (\d+), (\d+)\)", o.get("message") or ""))
@@ -787,6 +800,10 @@ def run(chk, args):
             chk.count("call:%s" % k["fn"])
             if k.get("rewrite"):
                 chk.count("calls-after-a-file-was-rewritten")
+            if k.get("wait") is not None:
+                chk.count("wait-spelt-as:%s" % k.get("wait_as", "bool"))
+            if any(not ps for b, ts in k["map"] for x, y, ps in ts) or any(not ts for b, ts in k["map"]):
+                chk.count("maps-with-an-empty-chip-or-binary")
             for opt in ("via", "seq_advance", "reuse_of"):
                 if k.get(opt) is not None:
                     chk.count("call-option:%s" % opt)
@@ -866,7 +883,7 @@ def run(chk, args):
         except RuntimeError as e:
             chk.oblige("correspondence:model-evaluates", False, str(e))
     chk.coverage["rule"] = ("fault histories: machine of 1-6 chips of a pool spanning several regions (6%% a whole 4x4 "
-                            "block), buffer in {8,12,16,32,64,128,130,254,255,256}, sv->vcpu_base differing from chip to chip (80%%), core collections given as set / frozenset / tuple / list / range (one-shot generator / iter / map / filter for bare flood fills), app id and wait through context objects created earlier or changed by update_current_context (37%%), a connection whose sequence number wraps during the first call (12%%), the same dict / set objects handed over again after in-place changes (20%% of later calls), 1-3 binaries of k*buffer-4/+0/+4 bytes, cores left "
+                            "block), buffer in {8,12,16,32,64,128,130,254,255,256}, sv->vcpu_base differing from chip to chip (80%%), core collections given as set / frozenset / tuple / list / range (one-shot generator / iter / map / filter for bare flood fills), wait spelt as bool / int / numpy bool / None, chips with an empty core set and binaries without chips (20%%), app id and wait through context objects created earlier or changed by update_current_context (37%%), a connection whose sequence number wraps during the first call (12%%), the same dict / set objects handed over again after in-place changes (20%% of later calls), 1-3 binaries of k*buffer-4/+0/+4 bytes, cores left "
                             "waiting/running by earlier sessions (45%%), per-fill miss sets with rate in {0,.15,.3,.5,.8,1}, "
                             "1-3 calls on one controller (93%% load_application, both modes, wait, n_tries 0-3, one- and "
                             "two-argument forms); every 8th history malformed (%s); preceded by the K3 and the "
